@@ -254,15 +254,24 @@ def run_property(prop, tier="quick", replay=None, extra_checks=None):
         try:
             fb, rep = evaluate("spliced")
             if any(o.status != "ok" for o in rep.obs) and (fb.spliced or fb.fresh_loopy):
+                best = (sum(1 for o in rep.obs if o.status != "ok"), fb, rep, "spliced")
                 for alt in (["loops"] if fb.fresh_loopy else []) + (["written"] if fb.spliced else []):
                     try:
                         fb2, rep2 = evaluate(alt)
                     except Exception:
                         continue
-                    if all(o.status == "ok" for o in rep2.obs):
+                    nbad = sum(1 for o in rep2.obs if o.status != "ok")
+                    if nbad == 0:
                         rep2.notes.append("configuration %s decided on presentation '%s' (new helper functions %s)" % (key, alt, "inlined including their loops" if alt == "loops" else "kept as written"))
-                        fb, rep = fb2, rep2
+                        best = (0, fb2, rep2, alt)
                         break
+                    if nbad < best[0]:
+                        best = (nbad, fb2, rep2, alt)
+                # nothing discharges everything: report the presentation that leaves the least open
+                # (its findings are the closest to the construct that is actually wrong)
+                if best[0] and best[3] != "spliced":
+                    best[2].notes.append("configuration %s: no presentation discharges every obligation; reported on presentation '%s'" % (key, best[3]))
+                fb, rep = best[1], best[2]
         except Exception:
             errors.append("rule engine error in %s [%s]: %s" % (prop, key, traceback.format_exc()[-1500:]))
             continue
